@@ -1129,6 +1129,9 @@ def HOIST_OPT(i, s, p):
         ("or", "<| {B0}", ".or({0})", ["Some(%du8)" % K(i, s)]),
         ("or_else", "<= {B0}", ".or_else({0})", [cl(i, s, p, "Some(%du8)" % K(i, s), "")]),
         ("inspect", "?? {B0}", "@inspect@{0}", [cl(i, s, p, "let _ = v;", "v: &Option<u8>")]),
+        # the same operators with the operand inside a wrapper (`X >>> -> f <<<` is `.x(|v| f(v))`)
+        ("wrap_map", "|> >>> -> {B0} <<<", ".map({0})", [cl(i, s, p, "x.wrapping_mul(3).wrapping_add(%d)" % K(i, s))]),
+        ("wrap_and_then", "=> >>> -> {B0} <<<", ".and_then({0})", [cl(i, s, p, "if x > 5 { Some(x.wrapping_sub(1)) } else { None }")]),
     ]
 
 
